@@ -289,3 +289,69 @@ Example dp_257_structs_fail : dp_call 257 = CErr 1 sys_msg false.
 Proof. vm_compute. reflexivity. Qed.
 Example dp_257_typed : args_typed env0 (fs_args dp_sig) [dp_chain 256 1; VInt 7].
 Proof. unfold args_typed. repeat (apply Forall2_cons; [cbn [fst]; apply (has_type_b_sound env0 600); vm_compute; reflexivity|]). apply Forall2_nil. Qed.
+
+(* ---------- the error clause at code 0: an implementation that fails with a tars.Error whose code is 0 (the protocol's
+   success marker) - the reply carries IRet = 0, so the caller of a void function sees SUCCESS, the caller of a function
+   with results a decode error with code 1; code and message are lost (same on the code: known findings
+   e2e/error-code-zero/...). For every other code the error theorems give code and message exactly. ---------- *)
+Definition z_void : fsig := {| fs_name := [112; 105; 110; 103]; fs_ret := None; fs_args := [] |}.
+Definition z_int : fsig := {| fs_name := [102; 73; 110; 116]; fs_ret := Some TI32; fs_args := [(TI32, false); (TI32, true)] |}.
+Definition z_impl : bytes -> list val -> smap -> smap -> impl_res := fun _ _ _ _ => IFail 0 [98; 111; 111; 109].
+Example z_code_zero_void_succeeds :
+  fst (call env0 SR SP MAXP z_impl (filters_of inv_res no_filters) (filters_of disp_res no_filters) [z_void] z_void [] [] false 41 [79] 3000)
+  = COk None [] [].
+Proof. vm_compute. reflexivity. Qed.
+Example z_code_zero_results_decode_error :
+  fst (call env0 SR SP MAXP z_impl (filters_of inv_res no_filters) (filters_of disp_res no_filters) [z_int] z_int [VInt 5; VInt 0] [] false 41 [79] 3000)
+  = CErr 1 sys_msg true.
+Proof. vm_compute. reflexivity. Qed.
+
+(* ---------- two concurrent callers on one connection (EndToEndFull.concurrent_calls): the requests of mixed (id 41) and
+   m2 with a pre-filled out variable (id 42) are sent in the order 42, 41, the request stream arrives one byte at a time,
+   the replies are written in the opposite order and arrive coalesced; each caller gets what its call returns alone ---------- *)
+Definition cc_impl : bytes -> list val -> smap -> smap -> impl_res :=
+  fun fn _ _ _ => if bytes_eqb fn (fs_name ex_sig) then IOk ex_ret ex_outs ex_rc ex_rs else IOk ex_ret fx_outs_empty ex_rc ex_rs.
+Definition cc_iface : iface := [ex_sig; fx_sig].
+Definition cc_q1 := ex_q false.
+Definition cc_q2 := mkreq env0 fx_sig fx_args_prefilled ex_opts false 42 [79; 98; 106] 3000.
+Definition cc_sent := [cc_q2; cc_q1].
+Definition cc_chunks_q : list bytes := map (fun b => [b]) (concat (map (enc_req env0 SR) cc_sent)).
+Definition cc_written : list rsppkt :=
+  [ok_reply env0 ex_sig cc_q1 ex_ret ex_outs ex_rc ex_rs; ok_reply env0 fx_sig cc_q2 ex_ret fx_outs_empty ex_rc ex_rs].
+Definition cc_chunks_p : list bytes := [concat (map (enc_rsp env0 SP) cc_written)].
+Lemma concat_singletons {A} (l : list A) : concat (map (fun b => [b]) l) = l.
+Proof. induction l as [|x l IH]; cbn [map concat app]; [reflexivity|now rewrite IH]. Qed.
+Example cc_q2_sendable : req_sendable env0 SR MAXP cc_q2.
+Proof.
+  split; [|apply N.leb_le; vm_compute; reflexivity].
+  unfold req_fine, smap_fine, str_fine. cbn [cc_q2 mkreq q_ver q_ptype q_mtype q_id q_servant q_func q_buf q_timeout q_ctx q_status]. fine_packet.
+Qed.
+Example cc_r2_sendable : rsp_sendable env0 SP MAXP (ok_reply env0 fx_sig cc_q2 ex_ret fx_outs_empty ex_rc ex_rs).
+Proof.
+  split; [|apply N.leb_le; vm_compute; reflexivity].
+  unfold rsp_fine, smap_fine, str_fine. cbn [ok_reply p_ver p_ptype p_id p_mtype p_ret p_buf p_status p_desc p_ctx cc_q2 mkreq q_ver q_ptype q_id]. fine_packet.
+Qed.
+Example cc_served_in_reverse :
+  cc_written = rev (server_conn env0 SR MAXP cc_impl (filters_of disp_res ex_ps) cc_iface cc_chunks_q).
+Proof. vm_compute. reflexivity. Qed.
+Example cc_both_callers :
+  conc_result env0 SP MAXP cc_chunks_p ex_sig ex_args ex_opts cc_q1 = COk ex_ret ex_outs [ex_rc; ex_rs] /\
+  conc_result env0 SP MAXP cc_chunks_p fx_sig fx_args_prefilled ex_opts cc_q2 = COk ex_ret fx_outs_empty [ex_rc; ex_rs].
+Proof.
+  assert (H := concurrent_calls env0 2 fx_env0_wf ltac:(lia) SR SP eq_refl eq_refl MAXP ltac:(vm_compute; reflexivity) cc_impl
+                 ex_pc ex_ps cc_iface [cc_q1; cc_q2] cc_sent cc_chunks_q cc_written cc_chunks_p
+                 (Permutation.perm_swap _ _ _)).
+  assert (Hnd : NoDup (map q_id [cc_q1; cc_q2])).
+  { cbn. repeat constructor; cbn; intuition discriminate. }
+  specialize (H Hnd).
+  assert (Hs : Forall (req_sendable env0 SR MAXP) cc_sent) by (apply Forall_cons; [exact cc_q2_sendable|apply Forall_cons; [exact ex_req_sendable|apply Forall_nil]]).
+  specialize (H Hs (concat_singletons _)).
+  assert (Hw : Permutation.Permutation cc_written (server_conn env0 SR MAXP cc_impl (filters_of disp_res ex_ps) cc_iface cc_chunks_q)).
+  { rewrite cc_served_in_reverse. apply Permutation.Permutation_sym, Permutation.Permutation_rev. }
+  assert (Hr : Forall (rsp_sendable env0 SP MAXP) cc_written) by (apply Forall_cons; [exact ex_rsp_sendable|apply Forall_cons; [exact cc_r2_sendable|apply Forall_nil]]).
+  specialize (H Hw Hr).
+  assert (Hc : concat cc_chunks_p = concat (map (enc_rsp env0 SP) cc_written)) by (unfold cc_chunks_p; cbn [concat]; apply app_nil_r).
+  specialize (H Hc). unfold cc_q1, ex_q, cc_q2. split.
+  - rewrite (H ex_sig ex_args ex_opts false 41%Z [79; 98; 106] 3000%Z (or_introl eq_refl)). vm_compute. reflexivity.
+  - rewrite (H fx_sig fx_args_prefilled ex_opts false 42%Z [79; 98; 106] 3000%Z (or_intror (or_introl eq_refl))). vm_compute. reflexivity.
+Qed.
